@@ -163,19 +163,40 @@ _V = [None]          # variant used by tag_checks for const data members
 
 
 def tag_checks(eff):
-    """local cell -> (constant, exits?) for  if (cell != CONST) abort/die"""
+    """id(fread effect) -> (constant, mismatch is fatal?, line) for the test that follows the read of a tag into a local cell:
+    if (cell != CONST) die  /  if (cell == CONST) return; die.  Keyed by the read, so a tag-reading helper inlined at two call
+    sites gives two entries; also cell -> last test, for reads that are not followed by their own test."""
+    from sa.ioseq import mismatch_is_fatal
     out = {}
-    for x in flat(eff):
+    seq = list(flat(eff))
+    last_read = {}
+    for i, x in enumerate(seq):
+        if x["e"] == "call" and x["name"].endswith("::fread") and x.get("args") and x["args"][0] is not None:
+            a0 = x["args"][0]
+            cell = a0[1] if a0[0] == "addr" else a0
+            if cell[0] == "var":
+                last_read[cell] = id(x)
+            continue
         if x["e"] != "if":
             continue
         c = x["cond"]
-        if c[0] == "op" and c[1] in ("!=", "==") and c[2][0] == "var" and c[3][0] == "int":
-            exits = (x.get("then_status") == "exit") if c[1] == "!=" else (x.get("else_status") == "exit")
-            out[c[2]] = (c[3][1], exits, x["l"])
-        elif c[0] == "op" and c[1] in ("!=", "==") and c[2][0] == "var" and c[3][0] == "fld" and _V[0] is not None and \
-                const_member(_V[0], c[3]) is not None:
-            exits = (x.get("then_status") == "exit") if c[1] == "!=" else (x.get("else_status") == "exit")
-            out[c[2]] = (const_member(_V[0], c[3]), exits, x["l"])
+        if not (c[0] == "op" and c[1] in ("!=", "==")):
+            continue
+        for cell, other in ((c[2], c[3]), (c[3], c[2])):
+            if cell[0] != "var":
+                continue
+            val = None
+            if other[0] == "int":
+                val = other[1]
+            elif other[0] == "fld" and _V[0] is not None and const_member(_V[0], other) is not None:
+                val = const_member(_V[0], other)
+            if val is None:
+                continue
+            rec = (val, mismatch_is_fatal(seq, i), x["l"])
+            out[cell] = rec
+            if cell in last_read:
+                out[last_read[cell]] = rec
+            break
     return out
 
 
@@ -217,6 +238,12 @@ def compare(chk, v, tname, W, R, where, vn):
     wv = lambda t: sym.rewrite(sym.rewrite(t, alias), heap_n)                 # writer value in the reader's heap
     _V[0] = v
     tags = tag_checks(R["eff"])
+
+    def next_tag(cell, op=None):
+        """the test that follows this read of the tag cell"""
+        if op is not None and op.get("eff_id") in tags:
+            return tags[op["eff_id"]]
+        return tags.get(cell)
     dest = {}
     for x in flat(R["eff"]):
         if x["e"] == "store" and x["op"] == "=" and isinstance(x["val"], tuple):
@@ -393,7 +420,7 @@ def compare(chk, v, tname, W, R, where, vn):
                 wc = glob_const(v, w["ptr"])
                 if wc is not None:
                     cell = rp[1] if rp[0] == "addr" else rp
-                    tc = tags.get(cell)
+                    tc = next_tag(cell, r)
                     if tc is None or tc[0] != wc or not tc[1]:
                         return ["%s (line %s): tag %d written; the reader %s" % (ctx, r["l"], wc, "never tests what it read" if tc is None else
                                                                          "expects %d" % tc[0] if tc[0] != wc else "is not stopped by a mismatch")]
@@ -433,7 +460,7 @@ def compare(chk, v, tname, W, R, where, vn):
                 wc = glob_const(v, w["ptr"])
                 if wc is not None:
                     cell = rp[1] if rp[0] == "addr" else rp
-                    tc = tags.get(cell)
+                    tc = next_tag(cell, r)
                     if tc is None:
                         problems.append("%s (line %s): tag %d written but the reader never tests what it read" % (c, r["l"], wc))
                     elif tc[0] != wc:
